@@ -498,6 +498,9 @@ void GlobalGraph::deleteNode(Graph::NodeId node)
   nodeStructure_.erase(found);
 
   this->topologyHasChanged_();
+
+  // telling the observers
+  notifyDeletedNodes(vector<Graph::NodeId>(1, node));
 }
 
 void GlobalGraph::isolate_(GlobalGraph::Node& node)
